@@ -49,7 +49,7 @@ def cases_of(cfg):
     return lambda tier: [c for c in all_cases(tier) if c['CFG'] == cfg]
 
 
-COMMON = dict(timeout=1500, flags=['-DVF_MAX_INPUTS=512'], diff_iters=300, diff_cases=6, unwindset=['in_bytes.0:101'])
+COMMON = dict(timeout=1500, flags=['-DVF_MAX_INPUTS=512'], diff_iters=200, diff_cases=4, unwindset=['in_bytes.0:101'])
 UNWIND = {0: 30, 1: 30, 2: 72, 3: 30, 5: 46}
 
 PROPERTY = Property(
